@@ -112,6 +112,11 @@ def run(ctx):
                    "transfer": "random" if (allint and ctx.rnd.random() < 0.5) else "fractional",
                    "tiebreak": ctx.rnd.choice(["random", "random", "borda", "first_place"])}
         ctx.guard("check", check_case, ctx, {"cfg": cfg, "profile": spec, "seed": ctx.rnd.randrange(10 ** 6)}, max_runs)
+        if i % 3 == 0:
+            sib = cases.sibling_weights_permuted(ctx.rnd, spec)
+            if sib is not None:
+                ctx.count("sibling_profiles")
+                ctx.guard("check", check_case, ctx, {"cfg": cfg, "profile": sib, "seed": ctx.rnd.randrange(10 ** 6)}, max_runs)
 
 
 def replay(ctx, case):
